@@ -38,6 +38,42 @@ def _plan(tier):
     return plan
 
 
+def _initc_exact_noop(rep, tier):
+    """textbook: with an exact (zero-covariance) initial state and damp = 0 the initial-constraint update has zero gain
+    (pseudo-inverse of a singular innovation covariance), so the filter with constraint_init must equal the filter
+    without it - in particular it must stay finite.  (solver_mle is excluded: its extra datum has a 0/0 whitened residual.)"""
+    import warnings
+
+    import jax.numpy as jnp
+    import numpy as np
+
+    from harness import realruns
+    from probdiffeq import ivpsolve
+    from probdiffeq import probdiffeq as pdq
+
+    for ssm_name in ("dense", "iso", "bd"):
+        for sv in ("solver", "dynamic", "dynamic_relin"):
+            for prob, ts in (("logistic", "ts1" if ssm_name == "dense" else "ts0"), ("vdp2", "ts0")):
+                if tier == "quick" and prob == "vdp2" and sv != "dynamic":
+                    continue
+                ssm, ode, prior, constraint = realruns.setup(prob, ssm_name, 3 if prob == "logistic" else 2, ts=ts)
+                outs = {}
+                for initc in (False, True):
+                    inner = realruns.SOLVERS[sv](strategy=pdq.strategy_filter(), constraint=constraint, constraint_init=constraint if initc else None)
+                    with warnings.catch_warnings():
+                        warnings.simplefilter("ignore")
+                        outs[initc] = ivpsolve.solve_fixed_grid(solver=inner)(prior, grid=jnp.asarray([0.0, 0.2, 0.5, 0.6, 1.0]))
+                a, b = outs[False], outs[True]
+                rep.traces += 1
+                rep.add_case(("initc-exact-noop", ssm_name, sv, prob))
+                key = f"impl:filter:initc-exact-init:{sv}:{ssm_name}"
+                fm, fs = realruns.flat(b.u.mean), realruns.flat(b.u.std)
+                if not (np.all(np.isfinite(fm)) and np.all(np.isfinite(fs))):
+                    rep.violation(key + ":non-finite", f"{prob}: the filter with constraint_init returns non-finite values for an exact initial state", {})
+                elif realruns.rel(fm, realruns.flat(a.u.mean)) > 1e-9 or realruns.rel(fs, realruns.flat(a.u.std)) > 1e-7:
+                    rep.violation(key + ":not-a-noop", f"{prob}: the initial-constraint update changes an exact initial state", {})
+
+
 def run(tier: str, seed: int) -> int:
     rep = Report("C02", tier, seed)
     rep.rule = (
@@ -55,6 +91,7 @@ def run(tier: str, seed: int) -> int:
         rep.extra["kalman_exact"] = True
     else:
         rep.extra["kalman_exact"] = False
+    _initc_exact_noop(rep, tier)
     rep.assumptions = [
         "term equality stands for equality of distributions; the numerics of each operation are decided under C08 (conditional algebra), C09 (prior discretisation), C11 (linearisation)",
         "loss of precision at high order / tiny steps is a floating-point property and not covered by the term algebra",
